@@ -65,6 +65,20 @@ Proof. unfold get_pr, put_pr. cbn. apply pget_pput_same. Qed.
 Lemma get_pr_put_other r id p id' : id' <> id -> get_pr (put_pr r id p) id' = get_pr r id'.
 Proof. intros H. unfold get_pr, put_pr. cbn. apply pget_pput_other. exact H. Qed.
 
+Lemma pput_pput m id p q : pput (pput m id p) id q = pput m id q.
+Proof.
+  induction m as [|[k x] tl IH]; cbn [pput].
+  - rewrite N.ltb_irrefl, N.eqb_refl. reflexivity.
+  - destruct (id <? k) eqn:E1; cbn [pput].
+    + rewrite N.ltb_irrefl, N.eqb_refl. reflexivity.
+    + destruct (id =? k) eqn:E2; cbn [pput].
+      * rewrite N.ltb_irrefl, N.eqb_refl. reflexivity.
+      * rewrite E1, E2. f_equal. exact IH.
+Qed.
+
+Lemma put_pr_put_pr r id p q : put_pr (put_pr r id p) id q = put_pr r id q.
+Proof. unfold put_pr. cbn. rewrite pput_pput. destruct r; reflexivity. Qed.
+
 Lemma get_pr_prs r r' id : r_prs r' = r_prs r -> get_pr r' id = get_pr r id.
 Proof. unfold get_pr. intros ->. reflexivity. Qed.
 
@@ -647,4 +661,595 @@ Proof.
   - exact A2.
   - rewrite A6. exact Hsn.
   - exact Hnz.
+Qed.
+
+(* ================================================================== *)
+(* 2. a rejection repairs next_idx                                     *)
+(* ================================================================== *)
+
+(* the leader-side hint: the largest index <= reject_hint whose leader term is <= the
+   follower's hint term (find_conflict_by_term), or the raw hint for term-less hints *)
+Definition reject_npi (r : raft) (m : msg) : Res N :=
+  if m_reject m && (0 <? m_log_term m) then
+    x <- find_conflict_by_term (r_log r) (m_reject_hint m) (m_log_term m) ;; Ok (fst x)
+  else Ok (m_reject_hint m).
+
+(* the progress after the unconditional part of handle_append_response *)
+Definition ack_pr (pr0 : progress) (cmt : N) : progress :=
+  update_committed (set_recent_active pr0 true) cmt.
+
+Lemma ack_pr_fields pr0 cmt :
+  paused (ack_pr pr0 cmt) = paused pr0 /\ recent_active (ack_pr pr0 cmt) = true /\
+  matched (ack_pr pr0 cmt) = matched pr0 /\ next_idx (ack_pr pr0 cmt) = next_idx pr0 /\
+  pr_state (ack_pr pr0 cmt) = pr_state pr0 /\ ins (ack_pr pr0 cmt) = ins pr0 /\
+  pending_snapshot (ack_pr pr0 cmt) = pending_snapshot pr0 /\
+  pending_request_snapshot (ack_pr pr0 cmt) = pending_request_snapshot pr0 /\
+  commit_group_id (ack_pr pr0 cmt) = commit_group_id pr0 /\
+  Progress.committed_index (ack_pr pr0 cmt) = N.max (Progress.committed_index pr0) cmt.
+Proof.
+  unfold ack_pr, update_committed. cbn [Progress.committed_index set_recent_active].
+  destruct (Progress.committed_index pr0 <? cmt) eqn:E; cbn; repeat split; lia.
+Qed.
+
+(* handle_append_response on a rejection, decomposed *)
+Theorem append_reject_eq r m pr0 :
+  get_pr r (m_from m) = Some pr0 -> m_reject m = true ->
+  handle_append_response r m =
+  (npi <- reject_npi r m ;;
+   let '(pr1, dec) := maybe_decr_to (ack_pr pr0 (m_commit m)) (m_index m) npi (m_request_snapshot m) in
+   if dec then
+     send_append_to
+       (put_pr r (m_from m) (if pstate_eqb (pr_state pr1) Replicate then become_probe pr1 else pr1))
+       (m_from m)
+   else Ok (put_pr r (m_from m) pr1)).
+Proof.
+  intros Hg Hr. unfold handle_append_response, reject_npi. rewrite Hr. cbn [andb].
+  destruct (0 <? m_log_term m).
+  - destruct (find_conflict_by_term (r_log r) (m_reject_hint m) (m_log_term m)); cbn [bind]; [|reflexivity].
+    rewrite Hg. reflexivity.
+  - cbn [bind]. rewrite Hg. reflexivity.
+Qed.
+
+(* --- Progress::maybe_decr_to, exactly --- *)
+
+(* not in Replicate (Probe or Snapshot), plain rejection (no snapshot request) *)
+Lemma maybe_decr_to_probe p rej hint :
+  pr_state p <> Replicate ->
+  maybe_decr_to p rej hint 0 =
+  if (next_idx p =? 0) || negb (next_idx p - 1 =? rej) then (p, false)
+  else (resume (set_next_idx p (N.max (N.min rej (hint + 1)) (matched p + 1))), true).
+Proof.
+  intros Hs. unfold maybe_decr_to.
+  destruct (pr_state p) eqn:E; try congruence; cbn [pstate_eqb];
+    change (0 =? INVALID_INDEX) with true; rewrite andb_true_r;
+    (destruct ((next_idx p =? 0) || negb (next_idx p - 1 =? rej)); [reflexivity|]);
+    (destruct (N.min rej (hint + 1) <? matched p + 1) eqn:E1;
+      [rewrite N.max_r by lia|rewrite N.max_l by lia]; reflexivity).
+Qed.
+
+(* in Replicate, plain rejection *)
+Lemma maybe_decr_to_replicate p rej hint :
+  pr_state p = Replicate ->
+  maybe_decr_to p rej hint 0 =
+  if rej <=? matched p then (p, false) else (set_next_idx p (matched p + 1), true).
+Proof.
+  intros Hs. unfold maybe_decr_to. rewrite Hs. cbn [pstate_eqb].
+  change (0 =? INVALID_INDEX) with true. rewrite andb_true_r.
+  destruct (rej <? matched p) eqn:E1; destruct (rej =? matched p) eqn:E2;
+    destruct (rej <=? matched p) eqn:E3; cbn [orb]; try reflexivity; lia.
+Qed.
+
+(* the repaired next index and the measure *)
+Definition repaired_next (pr0 : progress) (rej npi : N) : N :=
+  N.max (N.min rej (npi + 1)) (matched pr0 + 1).
+
+Lemma repaired_next_bounds pr0 rej npi :
+  next_idx pr0 <> 0 -> next_idx pr0 - 1 = rej ->
+  matched pr0 < repaired_next pr0 rej npi /\
+  repaired_next pr0 rej npi <= N.max rej (matched pr0 + 1) /\
+  (matched pr0 + 1 < next_idx pr0 -> repaired_next pr0 rej npi < next_idx pr0) /\
+  (next_idx pr0 <= matched pr0 + 1 -> repaired_next pr0 rej npi = matched pr0 + 1) /\
+  (* the probed index next-1 never goes above the leader-side hint, except to stay
+     right after [matched] *)
+  (repaired_next pr0 rej npi - 1 <= npi \/ repaired_next pr0 rej npi = matched pr0 + 1).
+Proof. unfold repaired_next. intros Hn Hr. lia. Qed.
+
+(* the progress of a Probe peer after a non-stale plain rejection *)
+Definition repaired_probe (pr0 : progress) (cmt rej npi : N) : progress :=
+  mkPr (matched pr0) (repaired_next pr0 rej npi) (pr_state pr0) false (pending_snapshot pr0)
+       (pending_request_snapshot pr0) true (ins pr0) (commit_group_id pr0)
+       (N.max (Progress.committed_index pr0) cmt).
+
+(* the progress of a Replicate peer after a non-stale plain rejection *)
+Definition repaired_replicate (pr0 : progress) (cmt : N) : progress :=
+  mkPr (matched pr0) (matched pr0 + 1) Probe false 0 (pending_request_snapshot pr0) true
+       (Inflights.reset (ins pr0)) (commit_group_id pr0)
+       (N.max (Progress.committed_index pr0) cmt).
+
+Lemma progress_eta p :
+  p = mkPr (matched p) (next_idx p) (pr_state p) (paused p) (pending_snapshot p)
+           (pending_request_snapshot p) (recent_active p) (ins p) (commit_group_id p)
+           (Progress.committed_index p).
+Proof. destruct p; reflexivity. Qed.
+
+(* MAIN 2a: Probe (or Snapshot) state, plain rejection.
+   Non-stale (the rejected index is the one being probed): next_idx is repaired to
+   max (min rejected (npi+1)) (matched+1), the pause flag is cleared and an append is
+   attempted at once (send_append_to).  Stale: only recent_active / committed_index. *)
+Theorem reject_repairs_next_probe r m pr0 npi :
+  get_pr r (m_from m) = Some pr0 -> m_reject m = true -> m_request_snapshot m = 0 ->
+  pr_state pr0 <> Replicate -> reject_npi r m = Ok npi ->
+  (next_idx pr0 <> 0 /\ next_idx pr0 - 1 = m_index m ->
+     handle_append_response r m =
+     send_append_to (put_pr r (m_from m) (repaired_probe pr0 (m_commit m) (m_index m) npi)) (m_from m)) /\
+  (next_idx pr0 = 0 \/ next_idx pr0 - 1 <> m_index m ->
+     handle_append_response r m = Ok (put_pr r (m_from m) (ack_pr pr0 (m_commit m)))).
+Proof.
+  intros Hg Hr Hq Hs Hn.
+  pose proof (ack_pr_fields pr0 (m_commit m)) as (P1 & P2 & P3 & P4 & P5 & P6 & P7 & P8 & P9 & P10).
+  rewrite (append_reject_eq r m pr0 Hg Hr), Hn. cbn [bind]. rewrite Hq.
+  rewrite maybe_decr_to_probe by congruence. rewrite P4.
+  split.
+  - intros [H0 H1]. apply N.eqb_neq in H0. rewrite H0, H1, N.eqb_refl. cbn [orb negb].
+    assert (Hst : pstate_eqb (pr_state (resume (set_next_idx (ack_pr pr0 (m_commit m))
+                    (N.max (N.min (m_index m) (npi + 1)) (matched (ack_pr pr0 (m_commit m)) + 1)))))
+                  Replicate = false).
+    { cbn [resume set_paused set_next_idx pr_state]. rewrite P5.
+      destruct (pr_state pr0); cbn; congruence. }
+    rewrite Hst. f_equal. f_equal.
+    unfold repaired_probe, repaired_next, resume, set_paused, set_next_idx. cbn.
+    rewrite P3, P5, P7, P8, P2, P6, P9, P10. reflexivity.
+  - intros H0.
+    assert (Hc : ((next_idx pr0 =? 0) || negb (next_idx pr0 - 1 =? m_index m)) = true).
+    { destruct H0 as [H0|H0].
+      - apply N.eqb_eq in H0. rewrite H0. reflexivity.
+      - apply N.eqb_neq in H0. rewrite H0. apply orb_true_r. }
+    rewrite Hc. reflexivity.
+Qed.
+
+(* MAIN 2b: Replicate state, plain rejection.  Non-stale (rejected index above matched):
+   the peer falls back to Probe with next_idx = matched + 1, an empty window, not
+   paused, and an append is attempted at once.  Stale: only recent_active /
+   committed_index. *)
+Theorem reject_repairs_next_replicate r m pr0 npi :
+  get_pr r (m_from m) = Some pr0 -> m_reject m = true -> m_request_snapshot m = 0 ->
+  pr_state pr0 = Replicate -> reject_npi r m = Ok npi ->
+  (matched pr0 < m_index m ->
+     handle_append_response r m =
+     send_append_to (put_pr r (m_from m) (repaired_replicate pr0 (m_commit m))) (m_from m)) /\
+  (m_index m <= matched pr0 ->
+     handle_append_response r m = Ok (put_pr r (m_from m) (ack_pr pr0 (m_commit m)))).
+Proof.
+  intros Hg Hr Hq Hs Hn.
+  pose proof (ack_pr_fields pr0 (m_commit m)) as (P1 & P2 & P3 & P4 & P5 & P6 & P7 & P8 & P9 & P10).
+  rewrite (append_reject_eq r m pr0 Hg Hr), Hn. cbn [bind]. rewrite Hq.
+  rewrite maybe_decr_to_replicate by congruence. rewrite P3.
+  split; intros H0.
+  - destruct (m_index m <=? matched pr0) eqn:E; [lia|].
+    cbn [set_next_idx pr_state]. rewrite P5, Hs. cbn [pstate_eqb].
+    f_equal. f_equal. unfold repaired_replicate, become_probe.
+    cbn [set_next_idx pr_state]. rewrite P5, Hs.
+    unfold reset_state, set_next_idx. cbn. rewrite P3, P8, P2, P6, P9, P10. reflexivity.
+  - destruct (m_index m <=? matched pr0) eqn:E; [reflexivity|lia].
+Qed.
+
+(* the repaired progress is never paused in Probe state, so send_append_to does try *)
+Lemma repaired_probe_unpaused pr0 cmt rej npi :
+  pr_state pr0 = Probe -> is_paused (repaired_probe pr0 cmt rej npi) = false.
+Proof. intros Hs. unfold is_paused, repaired_probe. cbn. rewrite Hs. reflexivity. Qed.
+
+Lemma repaired_replicate_unpaused pr0 cmt : is_paused (repaired_replicate pr0 cmt) = false.
+Proof. reflexivity. Qed.
+
+(* send_append_to of an unpaused Probe peer whose lookups succeed: the exact message
+   (no batching) *)
+Lemma send_append_to_probe r to pr ents t :
+  get_pr r to = Some pr -> pr_state pr = Probe -> paused pr = false ->
+  pending_request_snapshot pr = 0 -> next_idx pr <> 0 ->
+  log_entries (r_log r) (next_idx pr) (Some (r_max_msg_size r)) = Ok (SOk ents) ->
+  RaftLog.term (r_log r) (next_idx pr - 1) = Ok (SOk t) ->
+  r_batch_append r = false ->
+  send_append_to r to =
+  Ok (put_pr (r <| r_msgs := r_msgs r ++ [app_msg r to pr t ents] |>) to
+             (match ents with [] => pr | _ => pause pr end)).
+Proof.
+  intros Hg Hs Hp Hq Hn He Ht Hb. unfold send_append_to. rewrite Hg.
+  rewrite (maybe_send_append_entries r to pr true ents t); try assumption.
+  - destruct ents; [reflexivity|]. unfold update_state. rewrite Hs. reflexivity.
+  - unfold is_paused. rewrite Hs. exact Hp.
+  - left. reflexivity.
+Qed.
+
+(* COROLLARY: a non-stale plain rejection in Probe state re-probes in the same step *)
+Theorem reject_reprobes r m pr0 npi ents t :
+  get_pr r (m_from m) = Some pr0 -> m_reject m = true -> m_request_snapshot m = 0 ->
+  pr_state pr0 = Probe -> reject_npi r m = Ok npi ->
+  next_idx pr0 <> 0 -> next_idx pr0 - 1 = m_index m ->
+  pending_request_snapshot pr0 = 0 ->
+  let pr2 := repaired_probe pr0 (m_commit m) (m_index m) npi in
+  log_entries (r_log r) (next_idx pr2) (Some (r_max_msg_size r)) = Ok (SOk ents) ->
+  RaftLog.term (r_log r) (next_idx pr2 - 1) = Ok (SOk t) ->
+  r_batch_append r = false ->
+  handle_append_response r m =
+  Ok (put_pr (r <| r_msgs := r_msgs r ++ [app_msg r (m_from m) pr2 t ents] |>) (m_from m)
+             (match ents with [] => pr2 | _ => pause pr2 end)).
+Proof.
+  intros Hg Hr Hq Hs Hn H0 H1 Hps pr2 He Ht Hb.
+  destruct (reject_repairs_next_probe r m pr0 npi Hg Hr Hq ltac:(congruence) Hn) as [A _].
+  rewrite (A (conj H0 H1)). fold pr2.
+  rewrite (send_append_to_probe (put_pr r (m_from m) pr2) (m_from m) pr2 ents t).
+  - f_equal. change (put_pr r (m_from m) pr2 <| r_msgs := r_msgs (put_pr r (m_from m) pr2) ++
+                         [app_msg (put_pr r (m_from m) pr2) (m_from m) pr2 t ents] |>)
+      with (put_pr (r <| r_msgs := r_msgs r ++ [app_msg r (m_from m) pr2 t ents] |>) (m_from m) pr2).
+    apply put_pr_put_pr.
+  - apply get_pr_put_same.
+  - subst pr2. cbn. exact Hs.
+  - reflexivity.
+  - exact Hps.
+  - subst pr2. cbn. unfold repaired_next. lia.
+  - exact He.
+  - exact Ht.
+  - exact Hb.
+Qed.
+
+(* --- the hints (RaftLog lemma find_conflict_by_term_spec) --- *)
+
+(* leader side: npi is at or below the follower's hint; with a term-carrying hint that
+   lies inside the leader's log, npi is the largest index <= hint whose leader term is
+   <= the hint term (every index in (npi, hint] has a larger leader term, so none of
+   them can match the follower) *)
+Theorem reject_npi_spec rw r m npi :
+  RepInv rw (r_log r) -> m_reject m = true -> reject_npi r m = Ok npi ->
+  npi <= m_reject_hint m /\
+  (0 < m_log_term m -> m_reject_hint m <= last_index (r_log r) ->
+     (forall j, npi < j <= m_reject_hint m -> above_term (abs (r_log r)) (m_log_term m) j) /\
+     match ll_term (abs (r_log r)) npi with
+     | SOk t' => t' <= m_log_term m
+     | SErr _ => True
+     end).
+Proof.
+  intros HI Hr H. unfold reject_npi in H. rewrite Hr in H. cbn [andb] in H.
+  pose proof (find_conflict_by_term_spec rw (r_log r) (m_reject_hint m) (m_log_term m) HI) as S.
+  rewrite <- (abs_last rw _ HI) in S.
+  destruct (0 <? m_log_term m) eqn:E0.
+  - inv_bind H. inversion H; subst; clear H.
+    destruct (last_index (r_log r) <? m_reject_hint m) eqn:E1.
+    + rewrite S in Hx. inversion Hx; subst. cbn [fst]. split; [lia|]. intros _ Hle. lia.
+    + destruct S as [[Hp _]|(ci & ot & Hok & Hle & Hab & Hm)]; [congruence|].
+      rewrite Hok in Hx. inversion Hx; subst. cbn [fst]. split; [exact Hle|].
+      intros _ _. split; [exact Hab|]. destruct (ll_term (abs (r_log r)) ci); [apply Hm|exact I].
+  - inversion H; subst. split; [lia|]. intros Hc. lia.
+Qed.
+
+(* follower side: the rejection of handle_append_entries carries the probed index, and a
+   hint (hi, ht): hi <= min (probed index) (own last index), ht = own term at hi,
+   ht <= the leader's term at the probed index, every own index in (hi, min ..] has a
+   larger term.  The log is untouched. *)
+Theorem follower_reject_hint rw r m r' :
+  RepInv rw (r_log r) -> r_pending_request_snapshot r = 0 ->
+  committed (r_log r) <= m_index m ->
+  ll_match (abs (r_log r)) (m_index m) (m_log_term m) = false ->
+  handle_append_entries r m = Ok r' ->
+  exists hi ht,
+    r' = r <| r_msgs := r_msgs r ++
+           [msg_default <| m_to := m_from m |> <| m_type := MsgAppendResponse |>
+              <| m_index := m_index m |> <| m_reject := true |> <| m_reject_hint := hi |>
+              <| m_log_term := ht |> <| m_commit := committed (r_log r) |>
+              <| m_from := r_id r |> <| m_term := r_term r |>] |> /\
+    hi <= N.min (m_index m) (last_index (r_log r)) /\
+    ll_term (abs (r_log r)) hi = SOk ht /\ ht <= m_log_term m /\
+    (forall j, hi < j <= N.min (m_index m) (last_index (r_log r)) ->
+       above_term (abs (r_log r)) (m_log_term m) j).
+Proof.
+  intros HI Hq Hc Hm H. unfold handle_append_entries in H. rewrite Hq in H.
+  change (0 =? INVALID_INDEX) with true in H. cbn [negb] in H.
+  destruct (m_index m <? committed (r_log r)) eqn:E; [lia|].
+  rewrite (maybe_append_reject rw _ _ _ _ _ HI Hm) in H. cbn [bind] in H.
+  assert (Hlog : r <| r_log := r_log r |> = r) by (destruct r; reflexivity).
+  rewrite Hlog in H. clear Hlog.
+  pose proof (find_conflict_by_term_spec rw (r_log r) (N.min (m_index m) (last_index (r_log r)))
+                (m_log_term m) HI) as S.
+  rewrite <- (abs_last rw _ HI) in S.
+  destruct (last_index (r_log r) <? N.min (m_index m) (last_index (r_log r))) eqn:E1; [lia|].
+  destruct S as [[Hp _]|(ci & ot & Hok & Hle & Hab & Hmm)]; [rewrite Hp in H; discriminate|].
+  rewrite Hok in H. cbn [bind] in H.
+  destruct (ll_term (abs (r_log r)) ci) as [t'|e] eqn:Et.
+  - destruct Hmm as [Hle' ->]. rewrite send_plain in H by reflexivity. inversion H; subst; clear H.
+    exists ci, t'. split; [reflexivity|]. split; [exact Hle|]. split; [exact Et|].
+    split; [exact Hle'|exact Hab].
+  - subst ot. discriminate.
+Qed.
+
+(* ================================================================== *)
+(* 3. no Progress state is absorbing                                   *)
+(* ================================================================== *)
+
+(* [matched] of every tracked peer is the same, and the same peers are tracked *)
+Definition same_matched (r r' : raft) : Prop :=
+  forall id, option_map matched (get_pr r' id) = option_map matched (get_pr r id).
+
+Lemma same_matched_refl r : same_matched r r.
+Proof. intros id. reflexivity. Qed.
+
+Lemma same_matched_trans a b c : same_matched a b -> same_matched b c -> same_matched a c.
+Proof. intros H1 H2 id. rewrite H2, H1. reflexivity. Qed.
+
+Lemma same_matched_prs r r' : r_prs r' = r_prs r -> same_matched r r'.
+Proof. intros H id. rewrite (get_pr_prs _ _ _ H). reflexivity. Qed.
+
+Lemma same_matched_put r id p p' :
+  get_pr r id = Some p -> matched p' = matched p -> same_matched r (put_pr r id p').
+Proof.
+  intros Hg Hm id'. destruct (N.eq_dec id' id) as [->|Hne].
+  - rewrite get_pr_put_same, Hg. cbn. congruence.
+  - rewrite get_pr_put_other by exact Hne. reflexivity.
+Qed.
+
+Lemma send_append_to_matched r to r' : send_append_to r to = Ok r' -> same_matched r r'.
+Proof.
+  unfold send_append_to. intros H. destruct (get_pr r to) as [pr|] eqn:Hg; [|discriminate].
+  inv_bind H. destruct x as [[r1 pr1] b]. inversion H; subst.
+  apply maybe_send_append_facts in Hx. destruct Hx as (A & B & _).
+  eapply same_matched_trans; [apply same_matched_prs; apply msgs_only_prs; exact A|].
+  eapply same_matched_put; [|exact B].
+  rewrite (get_pr_prs _ _ _ (msgs_only_prs _ _ A)). exact Hg.
+Qed.
+
+Lemma send_append_aggressively_loop_matched fuel : forall r to pr r' pr',
+  send_append_aggressively_loop fuel r to pr = Ok (r', pr') ->
+  msgs_only r r' /\ matched pr' = matched pr.
+Proof.
+  induction fuel as [|f IH]; intros r to pr r' pr' H; [discriminate|].
+  cbn [send_append_aggressively_loop] in H. inv_bind H. destruct x as [[r1 pr1] b].
+  apply maybe_send_append_facts in Hx. destruct Hx as (A & B & _).
+  destruct b.
+  - apply IH in H. destruct H as [C0 D]. split; [eapply msgs_only_trans; eassumption|congruence].
+  - inversion H; subst. auto.
+Qed.
+
+Lemma send_append_aggressively_matched r to r' :
+  send_append_aggressively r to = Ok r' -> same_matched r r'.
+Proof.
+  unfold send_append_aggressively. intros H. destruct (get_pr r to) as [pr|] eqn:Hg; [|discriminate].
+  inv_bind H. destruct x as [r1 pr1]. inversion H; subst.
+  apply (send_append_aggressively_loop_matched _ _ to) in Hx. destruct Hx as [A B].
+  eapply same_matched_trans; [apply same_matched_prs; apply msgs_only_prs; exact A|].
+  eapply same_matched_put; [|exact B].
+  rewrite (get_pr_prs _ _ _ (msgs_only_prs _ _ A)). exact Hg.
+Qed.
+
+Lemma for_each_peer_matched (f : raft -> N -> Res raft) :
+  (forall r id r', f r id = Ok r' -> same_matched r r') ->
+  forall ids self r r', for_each_peer ids self f r = Ok r' -> same_matched r r'.
+Proof.
+  intros Hf. induction ids as [|id rest IH]; intros self r r' H.
+  { inversion H; subst. apply same_matched_refl. }
+  cbn [for_each_peer] in H. destruct (id =? self). { eapply IH; eassumption. }
+  inv_bind H. eapply same_matched_trans; [eapply Hf; eassumption|eapply IH; eassumption].
+Qed.
+
+Lemma bcast_append_matched r r' : bcast_append r = Ok r' -> same_matched r r'.
+Proof. unfold bcast_append. apply for_each_peer_matched. apply send_append_to_matched. Qed.
+
+Lemma maybe_commit_matched r r' b : maybe_commit r = Ok (r', b) -> same_matched r r'.
+Proof.
+  unfold maybe_commit. intros H. inv_bind H. destruct x as [l' b'].
+  destruct b'.
+  - destruct (get_pr r (r_id r)) as [pr|] eqn:Hg; [|discriminate]. inversion H; subst.
+    eapply same_matched_trans with (b := r <| r_log := l' |>); [apply same_matched_prs; reflexivity|].
+    eapply same_matched_put.
+    + change (get_pr (r <| r_log := l' |>) (r_id (r <| r_log := l' |>))) with (get_pr r (r_id r)).
+      exact Hg.
+    + unfold update_committed. destruct (_ <? _); reflexivity.
+  - inversion H; subst. apply same_matched_prs. reflexivity.
+Qed.
+
+Lemma ack_tail_matched r m op r' : ack_tail r m op = Ok r' -> same_matched r r'.
+Proof.
+  unfold ack_tail. intros H. inv_bind H. destruct x as [r1 cmt].
+  apply maybe_commit_matched in Hx. inv_bind H. inv_bind H.
+  assert (H12 : same_matched r1 x).
+  { destruct cmt.
+    - destruct (should_bcast_commit r1); [apply bcast_append_matched; exact Hx0|].
+      inversion Hx0; subst. apply same_matched_refl.
+    - destruct op; [eapply send_append_to_matched; exact Hx0|].
+      inversion Hx0; subst. apply same_matched_refl. }
+  apply send_append_aggressively_matched in Hx1.
+  assert (H3 : same_matched x0 r').
+  { destruct (r_lead_transferee x0) as [t|]; [|inversion H; subst; apply same_matched_refl].
+    destruct (t =? m_from m); [|inversion H; subst; apply same_matched_refl].
+    destruct (get_pr x0 (m_from m)); [|discriminate].
+    destruct (_ =? _); [|inversion H; subst; apply same_matched_refl].
+    unfold send_timeout_now in H. apply send_msgs_only in H.
+    apply same_matched_prs. apply msgs_only_prs. exact H. }
+  eapply same_matched_trans; [exact Hx|].
+  eapply same_matched_trans; [exact H12|].
+  eapply same_matched_trans; [exact Hx1|exact H3].
+Qed.
+
+(* the progress right after the update of a successful, advancing acknowledgement
+   (verbatim from the model function) *)
+Definition acked_pr (pr : progress) (idx : N) : Res progress :=
+  let pr1 := fst (maybe_update pr idx) in
+  match pr_state pr1 with
+  | Probe => Ok (become_replicate pr1)
+  | Snapshot => Ok (if is_snapshot_caught_up pr1 then become_probe pr1 else pr1)
+  | Replicate => i <- Inflights.free_to (ins pr1) idx ;; Ok (set_ins pr1 i)
+  end.
+
+(* handle_append_response on a successful response, decomposed *)
+Theorem append_ack_eq r m pr0 :
+  get_pr r (m_from m) = Some pr0 -> m_reject m = false ->
+  handle_append_response r m =
+  let pr := ack_pr pr0 (m_commit m) in
+  if matched pr0 <? m_index m then
+    pr2 <- acked_pr pr (m_index m) ;;
+    ack_tail (put_pr r (m_from m) pr2) m (is_paused pr)
+  else Ok (put_pr r (m_from m) (fst (maybe_update pr (m_index m)))).
+Proof.
+  intros Hg Hr. unfold handle_append_response. rewrite Hr. cbn [andb bind]. rewrite Hg.
+  fold (ack_pr pr0 (m_commit m)).
+  pose proof (ack_pr_fields pr0 (m_commit m)) as (_ & _ & P3 & _).
+  cbv zeta. unfold acked_pr, maybe_update. rewrite P3.
+  destruct (matched pr0 <? m_index m); cbn [negb fst]; reflexivity.
+Qed.
+
+Lemma maybe_update_fields p n :
+  matched p < n ->
+  matched (fst (maybe_update p n)) = n /\ paused (fst (maybe_update p n)) = false /\
+  next_idx (fst (maybe_update p n)) = N.max (next_idx p) (n + 1) /\
+  pr_state (fst (maybe_update p n)) = pr_state p /\ ins (fst (maybe_update p n)) = ins p /\
+  pending_snapshot (fst (maybe_update p n)) = pending_snapshot p /\
+  pending_request_snapshot (fst (maybe_update p n)) = pending_request_snapshot p /\
+  recent_active (fst (maybe_update p n)) = recent_active p.
+Proof.
+  intros H. unfold maybe_update. apply N.ltb_lt in H. rewrite H. cbn [fst].
+  cbn [resume set_matched set_paused next_idx].
+  destruct (next_idx p <? n + 1) eqn:E; cbn; repeat split; lia.
+Qed.
+
+Lemma acked_pr_fields pr idx pr2 :
+  matched pr < idx -> acked_pr pr idx = Ok pr2 ->
+  matched pr2 = idx /\ paused pr2 = false /\ idx < next_idx pr2 /\
+  match pr_state pr with
+  | Probe => pr_state pr2 = Replicate /\ next_idx pr2 = idx + 1 /\ ins pr2 = Inflights.reset (ins pr)
+  | Replicate => pr_state pr2 = Replicate /\ next_idx pr2 = N.max (next_idx pr) (idx + 1) /\
+                 Inflights.free_to (ins pr) idx = Ok (ins pr2)
+  | Snapshot => if pending_snapshot pr <=? idx
+                then pr_state pr2 = Probe /\ next_idx pr2 = idx + 1
+                else pr_state pr2 = Snapshot /\ next_idx pr2 = N.max (next_idx pr) (idx + 1)
+  end.
+Proof.
+  intros Hm H. unfold acked_pr in H.
+  pose proof (maybe_update_fields pr idx Hm) as (U1 & U2 & U3 & U4 & U5 & U6 & U7 & U8).
+  cbv zeta in H. rewrite U4 in H.
+  remember (fst (maybe_update pr idx)) as pr1 eqn:E1. clear E1.
+  destruct (pr_state pr) eqn:Es.
+  - inversion H as [H2]. clear H. subst pr2.
+    unfold become_replicate, reset_state, set_next_idx. cbn.
+    rewrite U1, U5. repeat split; lia.
+  - inv_bind H. inversion H as [H2]. clear H. subst pr2. cbn. rewrite U1, U2, U3, U4.
+    rewrite U5 in Hx. repeat split; auto; lia.
+  - unfold is_snapshot_caught_up in H. rewrite U4, U6, U1 in H. cbn [pstate_eqb andb] in H.
+    destruct (pending_snapshot pr <=? idx) eqn:E.
+    + inversion H as [H2]. clear H. subst pr2. unfold become_probe. rewrite U4.
+      unfold reset_state, set_next_idx. cbn. rewrite U1, U6.
+      repeat split; lia.
+    + inversion H as [H2]. clear H. subst pr2. rewrite U1, U2, U3, U4. repeat split; lia.
+Qed.
+
+(* MAIN 3a: a successful acknowledgement above [matched] raises [matched] to the
+   acknowledged index in every state, moves Probe to Replicate, and moves Snapshot to
+   Probe as soon as the acknowledged index reaches the pending snapshot; whatever the
+   tail of the handler sends afterwards, [matched] of every peer stays. *)
+Theorem ack_raises_matched r m pr0 r' :
+  get_pr r (m_from m) = Some pr0 -> m_reject m = false -> matched pr0 < m_index m ->
+  handle_append_response r m = Ok r' ->
+  exists pr2 pr',
+    acked_pr (ack_pr pr0 (m_commit m)) (m_index m) = Ok pr2 /\
+    ack_tail (put_pr r (m_from m) pr2) m (is_paused pr0) = Ok r' /\
+    match pr_state pr0 with
+    | Probe => pr_state pr2 = Replicate /\ next_idx pr2 = m_index m + 1
+    | Replicate => pr_state pr2 = Replicate
+    | Snapshot => if pending_snapshot pr0 <=? m_index m
+                  then pr_state pr2 = Probe /\ next_idx pr2 = m_index m + 1 /\ paused pr2 = false
+                  else pr_state pr2 = Snapshot
+    end /\
+    get_pr r' (m_from m) = Some pr' /\ matched pr' = m_index m /\
+    (forall id p, id <> m_from m -> get_pr r id = Some p ->
+       exists p', get_pr r' id = Some p' /\ matched p' = matched p).
+Proof.
+  intros Hg Hr Hm H. rewrite (append_ack_eq r m pr0 Hg Hr) in H. cbv zeta in H.
+  apply N.ltb_lt in Hm. rewrite Hm in H. apply N.ltb_lt in Hm.
+  pose proof (ack_pr_fields pr0 (m_commit m)) as (P1 & P2 & P3 & P4 & P5 & P6 & P7 & P8 & P9 & P10).
+  inv_bind H. rename x into pr2.
+  assert (Hip : is_paused (ack_pr pr0 (m_commit m)) = is_paused pr0).
+  { unfold is_paused. rewrite P5, P1, P6. reflexivity. }
+  rewrite Hip in H.
+  pose proof (acked_pr_fields _ _ _ ltac:(rewrite P3; exact Hm) Hx) as (F1 & F2 & F3 & F4).
+  pose proof (ack_tail_matched _ _ _ _ H) as Hsm.
+  assert (Hg' : option_map matched (get_pr r' (m_from m)) = Some (m_index m)).
+  { rewrite Hsm, get_pr_put_same. cbn. congruence. }
+  destruct (get_pr r' (m_from m)) as [pr'|] eqn:Eg'; [|discriminate].
+  exists pr2, pr'. split; [exact Hx|]. split; [exact H|]. split.
+  { rewrite P5 in F4. destruct (pr_state pr0).
+    - destruct F4 as (A & B & _). auto.
+    - apply F4.
+    - rewrite P7 in F4. destruct (pending_snapshot pr0 <=? m_index m); [|apply F4].
+      destruct F4 as [A B]. auto. }
+  split; [reflexivity|]. split; [cbn in Hg'; congruence|].
+  intros id p Hne Hp. specialize (Hsm id). rewrite get_pr_put_other in Hsm by exact Hne.
+  rewrite Hp in Hsm. cbn in Hsm. destruct (get_pr r' id) as [p'|]; [|discriminate].
+  exists p'. split; [reflexivity|]. cbn in Hsm. congruence.
+Qed.
+
+(* MAIN 3b: a snapshot status report (success or failure) always leaves Snapshot state:
+   the peer becomes a paused Probe right after max (matched, pending snapshot) (success)
+   or right after matched (failure); the pause is lifted by the next heartbeat response
+   (MAIN 1). *)
+Theorem snapshot_state_exits r m pr0 :
+  get_pr r (m_from m) = Some pr0 -> pr_state pr0 = Snapshot ->
+  handle_snapshot_status r m = Ok (put_pr r (m_from m) (resumed_pr pr0 (m_reject m))) /\
+  pr_state (resumed_pr pr0 (m_reject m)) = Probe /\
+  paused (resumed_pr pr0 (m_reject m)) = true /\
+  pending_request_snapshot (resumed_pr pr0 (m_reject m)) = 0 /\
+  matched (resumed_pr pr0 (m_reject m)) = matched pr0 /\
+  matched pr0 < next_idx (resumed_pr pr0 (m_reject m)) /\
+  next_idx (resumed_pr pr0 (m_reject m)) =
+    (if m_reject m then matched pr0 + 1 else N.max (matched pr0 + 1) (pending_snapshot pr0 + 1)).
+Proof.
+  intros Hg Hs. rewrite snapshot_resume, Hg, Hs. split; [reflexivity|].
+  unfold resumed_pr. cbn. repeat split; auto. destruct (m_reject m); lia.
+Qed.
+
+(* MAIN 3c: MsgUnreachable moves Replicate to Probe (right after matched, empty window,
+   not paused); other states are untouched *)
+Theorem unreachable_leaves_replicate r m pr0 :
+  get_pr r (m_from m) = Some pr0 ->
+  handle_unreachable r m =
+  Ok (match pr_state pr0 with
+      | Replicate => put_pr r (m_from m) (become_probe pr0)
+      | _ => r
+      end) /\
+  (pr_state pr0 = Replicate ->
+     pr_state (become_probe pr0) = Probe /\ next_idx (become_probe pr0) = matched pr0 + 1 /\
+     paused (become_probe pr0) = false /\ matched (become_probe pr0) = matched pr0).
+Proof.
+  intros Hg. unfold handle_unreachable. rewrite Hg. split.
+  - destruct (pr_state pr0); reflexivity.
+  - intros Hs. unfold become_probe. rewrite Hs. cbn. auto.
+Qed.
+
+(* SUMMARY: for every Progress state there is an input, produced by the fault-free
+   protocol, that makes the peer leave it or un-pauses it. *)
+Theorem no_progress_state_absorbing r pr0 from :
+  get_pr r from = Some pr0 ->
+  match pr_state pr0 with
+  | Snapshot =>
+      forall m, m_from m = from ->
+        exists r' pr', handle_snapshot_status r m = Ok r' /\ get_pr r' from = Some pr' /\
+                       pr_state pr' = Probe
+  | Replicate =>
+      forall m, m_from m = from ->
+        exists r' pr', handle_unreachable r m = Ok r' /\ get_pr r' from = Some pr' /\
+                       pr_state pr' = Probe
+  | Probe =>
+      forall m r', m_from m = from -> m_reject m = false -> matched pr0 < m_index m ->
+        handle_append_response r m = Ok r' ->
+        exists pr2, acked_pr (ack_pr pr0 (m_commit m)) (m_index m) = Ok pr2 /\
+                    pr_state pr2 = Replicate /\
+                    ack_tail (put_pr r from pr2) m (paused pr0) = Ok r'
+  end.
+Proof.
+  intros Hg. destruct (pr_state pr0) eqn:Es.
+  - intros m r' Hf Hr Hm H. subst from.
+    destruct (ack_raises_matched r m pr0 r' Hg Hr Hm H) as (pr2 & pr' & A & B & C0 & _).
+    rewrite Es in C0. exists pr2. split; [exact A|]. split; [apply C0|].
+    unfold is_paused in B. rewrite Es in B. exact B.
+  - intros m Hf. subst from.
+    destruct (unreachable_leaves_replicate r m pr0 Hg) as [A B]. rewrite Es in A.
+    eexists. eexists. split; [exact A|]. split; [apply get_pr_put_same|]. apply (B Es).
+  - intros m Hf. subst from.
+    destruct (snapshot_state_exits r m pr0 Hg Es) as (A & B & _).
+    eexists. eexists. split; [exact A|]. split; [apply get_pr_put_same|exact B].
 Qed.
